@@ -17,6 +17,9 @@ import (
 	"github.com/ipfs/go-graphsync"
 	gsimpl "github.com/ipfs/go-graphsync/impl"
 	gsmsg "github.com/ipfs/go-graphsync/message"
+	"github.com/ipfs/go-graphsync/messagequeue"
+	"github.com/ipfs/go-graphsync/responsemanager/queryexecutor"
+	"github.com/ipld/go-ipld-prime/node/basicnode"
 	"github.com/libp2p/go-libp2p/core/peer"
 
 	"verifharness/dagreal"
@@ -58,6 +61,32 @@ type respObs struct {
 }
 
 const respK = 2
+
+// the query executor's hook is a package variable: one dispatcher for all cases running in this process, by request id
+var respFinishGates sync.Map // graphsync.RequestID -> func()
+
+// builds and extractions of the responder's message queue, by request id (the hook is a package variable too; mq-run and
+// conc-run install their own for the time they run)
+var respMQEvents sync.Map // graphsync.RequestID -> func(event string, topic messagequeue.Topic)
+
+func init() {
+	messagequeue.VerifHook = func(q *messagequeue.MessageQueue, event string, topic messagequeue.Topic, ids []graphsync.RequestID) {
+		for _, id := range ids {
+			if f, ok := respMQEvents.Load(id); ok {
+				f.(func(string, messagequeue.Topic))(event, topic)
+				return
+			}
+		}
+	}
+	queryexecutor.VerifHook = func(event string, id graphsync.RequestID) {
+		if event != "finishing" {
+			return
+		}
+		if f, ok := respFinishGates.Load(id); ok {
+			f.(func())()
+		}
+	}
+}
 
 func runRespCase(c respCase) (obs respObs) {
 	ctx, cancelAll := context.WithCancel(context.Background())
@@ -215,6 +244,28 @@ func runRespCase(c respCase) (obs respObs) {
 		case "reject":
 		}
 	})
+	// update hooks: for a paused response they run in the manager's loop and take the decision the script attached to the
+	// update event; for a running one they run in the executor, which the script holds there
+	loopDecision := ""
+	errUpd := errors.New("verif: update hook error")
+	gsS.RegisterRequestUpdatedHook(func(p peer.ID, r graphsync.RequestData, u graphsync.RequestData, ha graphsync.RequestUpdatedHookActions) {
+		if p != pP {
+			return
+		}
+		mu.Lock()
+		dec := loopDecision
+		loopDecision = ""
+		mu.Unlock()
+		if dec == "" {
+			dec = gate("updhook", 0)
+		}
+		switch dec {
+		case "loop-unpause":
+			ha.UnpauseResponse()
+		case "loop-error", "error":
+			ha.TerminateWithError(errUpd)
+		}
+	})
 	nhook := 0
 	gsS.RegisterOutgoingBlockHook(func(p peer.ID, r graphsync.RequestData, b graphsync.BlockData, ha graphsync.OutgoingBlockHookActions) {
 		if p != pP {
@@ -232,6 +283,37 @@ func runRespCase(c respCase) (obs respObs) {
 		}
 	})
 	reqID := graphsync.NewRequestID()
+	respFinishGates.Store(reqID, func() { gate("finishing", 0) })
+	defer respFinishGates.Delete(reqID)
+	// the sender has caught up when every message built for this request has been extracted (it is then in SendMsg or sent)
+	builtT, extractedT := map[messagequeue.Topic]bool{}, map[messagequeue.Topic]bool{}
+	respMQEvents.Store(reqID, func(event string, topic messagequeue.Topic) {
+		mu.Lock()
+		switch event {
+		case "built":
+			builtT[topic] = true
+		case "extract":
+			extractedT[topic] = true
+		}
+		mu.Unlock()
+	})
+	defer respMQEvents.Delete(reqID)
+	senderCaughtUp := func() {
+		for i := 0; i < 400; i++ {
+			mu.Lock()
+			ok := true
+			for t := range builtT {
+				if !extractedT[t] {
+					ok = false
+				}
+			}
+			mu.Unlock()
+			if ok {
+				return
+			}
+			time.Sleep(50 * time.Microsecond)
+		}
+	}
 	followID := graphsync.NewRequestID()
 	followUp := ""
 	var completed, qCompleted []string
@@ -344,6 +426,9 @@ func runRespCase(c respCase) (obs respObs) {
 	var heldSend chan verifnet.Outcome
 	release := func(dec string) {
 		if held != nil {
+			if heldSend == nil && len(sends) == 0 {
+				senderCaughtUp() // what was queued up to this point goes out as its own message, as in the model
+			}
 			held.reply <- dec
 			held = nil
 		}
@@ -406,6 +491,14 @@ func runRespCase(c respCase) (obs respObs) {
 				obs.Desync = fmt.Sprintf("event %d: block hook never called", i)
 			}
 		case "popped":
+		case "updhook":
+			if !waitGate("updhook") {
+				obs.Desync = fmt.Sprintf("event %d: the executor never ran the update hook", i)
+			}
+		case "finishing":
+			if !waitGate("finishing") {
+				obs.Desync = fmt.Sprintf("event %d: the worker never reached the end of its task", i)
+			}
 		default:
 			release("ok")
 			passGates(5 * time.Millisecond)
@@ -459,8 +552,28 @@ func runRespCase(c respCase) (obs respObs) {
 			secondHold = true
 		}
 		switch e.Ev {
-		case "go":
+		case "update":
+			who, dec := e.A[:1], e.A[2:]
+			ep := epP
+			if who == "Q" {
+				ep = epQ
+			}
+			if who == "P" && dec != "-" {
+				mu.Lock()
+				loopDecision = dec
+				mu.Unlock()
+			}
+			post(ep, reqMsg(gsmsg.NewUpdateRequest(reqID, graphsync.ExtensionData{Name: graphsync.ExtensionName("verif/update"), Data: basicnode.NewString("u")})))
+			mu.Lock()
+			loopDecision = ""
+			mu.Unlock()
+		case "updhook":
+			release(e.A)
+		case "go", "finish":
 			release("ok")
+			if e.Ev == "finish" {
+				barrier()
+			}
 		case "hook":
 			release(e.A)
 		case "sendok", "sendfail":
